@@ -574,6 +574,11 @@ def valid(m, op):
         b = m.blobs.get(e0['blob'])
         if b is None or e0.get('load_size') != 4:
             return False
+        efi = bool(op.get('efi')) or bool(op.get('mac'))
+        if (efi and op.get('part_entry') == 2) or (op.get('mac') and op.get('part_entry') == 3):
+            return False     # refused since the fix 'refuse a hybrid partition entry that the EFI or Mac image needs'
+        if op.get('mac') and op.get('part_type') not in (None, 0):
+            return False
         return any(off == 0x40 and bytes.fromhex(h)[:4] == b'\xfb\xc0\x78\x70' for off, h in b.overlays)
     if k == 'rm_isohybrid':
         return bool(m.hybrid)
